@@ -138,6 +138,35 @@ func Remove(name string) error {
 	return err
 }
 
+// Truncate changes the size of the named file.
+func Truncate(name string, size int64) error {
+	s, rel := track(name)
+	if s == nil {
+		return os.Truncate(name, size)
+	}
+	var err error
+	s.do(&Op{Kind: "truncate", Path: rel, Off: size}, func() bool {
+		err = os.Truncate(name, size)
+		return err == nil
+	})
+	return err
+}
+
+// Rename renames (moves) oldpath to newpath, replacing newpath if it exists (atomic).
+func Rename(oldpath, newpath string) error {
+	s, rel := track(oldpath)
+	s2, rel2 := track(newpath)
+	if s == nil || s2 == nil {
+		return os.Rename(oldpath, newpath)
+	}
+	var err error
+	s.do(&Op{Kind: "rename", Path: rel, Note: rel2}, func() bool {
+		err = os.Rename(oldpath, newpath)
+		return err == nil
+	})
+	return err
+}
+
 func MkdirAll(path string, perm FileMode) error {
 	s, rel := track(path)
 	if s == nil || exists(path) {
@@ -234,7 +263,7 @@ type KV struct {
 // Op is one completed mutating operation (or a marker the harness put into the log).
 type Op struct {
 	Class byte   // 'F' foreground, 'B' background, 'M' marker
-	Kind  string // create remove mkdir write sync ldbput ldbdel ldbbatch ldbopen ldbclose mark
+	Kind  string // create remove mkdir write sync truncate rename(Path -> Note) ldbput ldbdel ldbbatch ldbopen ldbclose mark
 	Path  string // relative to the session root ("" for LevelDB operations and markers)
 	Off   int64
 	Data  []byte
@@ -257,6 +286,10 @@ func (o *Op) String() string {
 		return fmt.Sprintf("%c:ldbbatch %d entries", o.Class, len(o.Batch))
 	case "mark":
 		return "mark " + o.Note
+	case "truncate":
+		return fmt.Sprintf("%c:truncate %s to %d", o.Class, o.Path, o.Off)
+	case "rename":
+		return fmt.Sprintf("%c:rename %s -> %s", o.Class, o.Path, o.Note)
 	}
 	return fmt.Sprintf("%c:%s %s", o.Class, o.Kind, o.Path)
 }
